@@ -16,10 +16,10 @@ def plan(tier):
         if (S, L) != (2, 2):
             T = sample(T, 240)
         cfg = [dict(t=t, S=S, L=L) for t in T]
-        I += ch_instances(f"walk[{S}x{L}]", 'c10_walk', W4 + [("start", "int")], _wpre(L, 4) + [f"0 <= start < {S}"],
-                          "B.c10_walk({t}, [w0, w1, w2, w3][:n], start, {S}, {L})", cfg, per_batch=6, timeout=90)
-        I += ch_instances(f"enumerate[{S}x{L}]", 'c10_enumerate', [("n", "int"), ("start", "int")], ["0 <= n <= 3", f"0 <= start < {S}"],
-                          "B.c10_enumerate({t}, n, start, {S}, {L})", cfg, per_batch=12, timeout=60)
+        I += ch_instances(f"walk[{S}x{L}]", 'c10_walk', W4 + [("start", "int"), ("sv", "int")], _wpre(L, 4) + [f"0 <= start < {S}", f"0 <= sv < {S}"],
+                          "B.c10_walk({t}, [w0, w1, w2, w3][:n], start, {S}, {L}, sv)", cfg, per_batch=6, timeout=90)
+        I += ch_instances(f"enumerate[{S}x{L}]", 'c10_enumerate', [("n", "int"), ("start", "int"), ("sv", "int")], ["0 <= n <= 3", f"0 <= start < {S}", f"0 <= sv < {S}"],
+                          "B.c10_enumerate({t}, n, start, {S}, {L}, sv)", cfg, per_batch=12, timeout=60)
         I += ch_instances(f"multiple[{S}x{L}]", 'c10_multiple', [("k", "int")] + W4, ["1 <= k <= 3"] + _wpre(L, 4),
                           "B.c10_multiple({t}, k, [w0, w1, w2, w3][:n], {S}, {L})", cfg, per_batch=4, timeout=120)
         I += ch_instances(f"rename[{S}x{L}]", 'c10_rename', [("perm", "int"), ("inplace", "bool"), ("n", "int"), ("w0", "int"), ("w1", "int"), ("w2", "int")],
